@@ -134,6 +134,10 @@ type MeetCfg struct {
 	Triggers []int
 	Spans    []int
 	Strict   []bool
+	// Sites[i] != 0: the meeting point of round i is the owner's first arrival at that site instead
+	// of its Triggers[i]-th shared-state yield point (the caller knows a site worth stopping at, e.g.
+	// one that only the first use of a shared value passes).
+	Sites []int
 }
 
 // meetState is the run-time side of MeetCfg (touched by the one task that runs, or by the scheduler
@@ -208,7 +212,14 @@ var SiteDump func(task, site int)
 func SoftYield() { softYield(false) }
 
 // SoftYieldShared is the hook behind verifyield.YS().
+// SiteRecorder, when set, sees every shared-state yield point that is passed, inside or outside a
+// scheduled section (the harness records the sites of a serial run with it).
+var SiteRecorder func(site int)
+
 func SoftYieldShared(site int) {
+	if SiteRecorder != nil {
+		SiteRecorder(site)
+	}
 	if SiteDump != nil {
 		if t := (*Task)(atomic.LoadPointer(&curTask)); t != nil {
 			SiteDump(t.ID, site)
@@ -243,6 +254,13 @@ func (s *Sched) meetYield(t *Task, site int) {
 			t.Yield()
 		}
 	case t.ID == m.cfg.Owner && m.round < len(m.cfg.Triggers):
+		if r := m.round; r < len(m.cfg.Sites) && m.cfg.Sites[r] != 0 {
+			if site == m.cfg.Sites[r] {
+				m.site, m.waiting = site, true
+				t.Yield()
+			}
+			return
+		}
 		m.count++
 		if m.count >= m.cfg.Triggers[m.round] {
 			m.site, m.waiting = site, true
